@@ -353,6 +353,18 @@ def lazily_named(c):
     const = z_h(z=v)
     c.holds('staged:conditioned_copy_keeps_the_name', z_h.name == 'z', note=str(z_h.name))
     c.holds('staged:constant_derived_from_the_copy_keeps_the_name', const.name == 'z', note=str(const.name))
+    # (e) sampling is not a name look-up: a helper builds the data distribution under one variable name, draws synthetic data from a conditioned copy
+    # (one draw and several) and hands the distribution back to a caller who binds it to ANOTHER name - the name is the caller's
+    def make_data_distribution():
+        data_dist = Gaussian(lambda q: q, 0.25, geometry=n)
+        _one = data_dist(q=v).sample(); _many = data_dist(q=v).sample(5)
+        return data_dist
+    y = make_data_distribution()
+    c.holds('sampling_a_conditioned_copy_does_not_fix_the_originals_name', y.name == 'y', note=str(y.name))
+    yy = Gaussian(np.zeros(n), 1.0)
+    def draw_from(dist): return dist.sample(4)
+    _ = draw_from(yy)
+    c.holds('sampling_the_original_elsewhere_does_not_fix_its_name', yy.name == 'yy', note=str(yy.name))
     # (d) through a likelihood
     w = Gaussian(np.zeros(n), cov=lambda t: t)
     Lw = w.to_likelihood(v)
